@@ -7,4 +7,5 @@ INVARIANT Class
 INVARIANT Canonical
 INVARIANT Unchanged
 INVARIANT Commutes
+INVARIANT Bookkeeping
 CHECK_DEADLOCK FALSE
